@@ -60,9 +60,16 @@ func evalFunctionCall(vm *r.VM, expr *syntax.FuncCallExpr) (r.Element, error) {
 func execMethodFunction(vm *r.VM, root r.Element, funcName *r.IDName, params []r.Element) (r.Element, error) {
 	switch robj := root.(type) {
 	case *value.Object:
-		_, refModule, err := vm.FindElementWithModule(r.NewIDName(robj.GetObjectName()))
-		if err != nil {
-			return nil, err
+		// the object's methods run in the module that defines its class - not in whatever
+		// the class NAME happens to mean where the call is written (the caller may not have
+		// imported the type, or may have another type of the same name)
+		refModule := robj.GetClassModule()
+		if refModule == nil {
+			var err error
+			_, refModule, err = vm.FindElementWithModule(r.NewIDName(robj.GetObjectName()))
+			if err != nil {
+				return nil, err
+			}
 		}
 		fnCallFrame := r.NewFunctionCallFrame(refModule, root)
 		vm.PushCallFrame(fnCallFrame)
